@@ -41,3 +41,8 @@ BOUNDED.update({
     "C09.validate_def_contents": {"cases": "rt.xgens_misc.def_content_cases", "adapter": "rt.xadapt_misc.issues", "share": True},
     "C07.get_org_span_from_strings": {"cases": "rt.xgens_misc.org_span_cases", "adapter": "rt.xadapt_misc.plain", "share": True},
 })
+
+BOUNDED.update({
+    # concrete side of the ownership contract of HedTag.__deepcopy__ (real tags from parsed / expanded annotations; identity checks in the adapter)
+    "C09.tag_deepcopy": {"cases": "rt.gens.tag_deepcopy_cases", "adapter": "rt.adapters.tag_deepcopy", "share": True},
+})
